@@ -1,4 +1,5 @@
 """Allocation-failure rules (C15): T-NUL, T-ERR, T-OWN."""
+import os
 from collections import defaultdict
 from ..build import AnalysisBroken
 from . import common
@@ -781,3 +782,99 @@ def r10_cleanup_count_is_fresh(ck, P):
                         ck.violation(R, fn, 'cleanup count %s (%s)' % (N.dv or 'N', u.name), 'the cleanup loop releases %s of elements [0, %s) but along the edge from block %d the count was computed before the release at %s: an element released there is still inside the range and is released a second time (and its freed header is read first)' % (key[-1].split('.')[-1], N.dv or 'N', p, F.loc()), F.loc())
                     else:
                         ck.ok(R, where)
+
+
+def r11_broken_operand_not_dropped(ck, P):
+    """T-MPT (must-dataflow over the CFG): a region operation returns without having looked at one of its input regions only when
+    that input cannot be the broken region.  The broken region is how an earlier allocation failure is reported; a shortcut that
+    answers from the other operand alone turns that failure into a success."""
+    R = ck.rule('C15-R11', 'in every exported region operation with two input regions, each path to a return has, for each input, either handed it to a callee, or established that it is not the broken region (data == NULL, data != pixman_broken_data, or numRects != 0), or established that it is the result itself / the other input; or it reports failure through pixman_break', floor=6)
+    from .region import units as _units
+    for u in _units(P):
+        for fn, f in sorted(u.functions.items()):
+            if not f.exported:
+                continue
+            regs = [i for i, (n_, t) in enumerate(f.params) if 'pixman_region' in t and t.endswith('*') and 'data' not in t]
+            if len(regs) < 3:
+                continue
+            ck.saw(f)
+            inputs = regs[1:]
+            def pidx(o):
+                return o[1] if o[0] == 'a' and o[1] in regs else None
+            def is_broken(o):
+                if o[0] == 'g':
+                    return 'broken' in o[1]
+                y = f.v(o)
+                return y is not None and y.op == 'load' and y.a[0][0] == 'g' and 'broken' in y.a[0][1]
+            def edge_facts(t, s):
+                """facts established by taking edge t -> s"""
+                ok = set(); al = set()
+                cc = f.v(t.a[0]) if t.op == 'br' and t.a else None
+                if cc is None or cc.op != 'icmp' or cc.d['p'] not in ('eq', 'ne'):
+                    return ok, al
+                is_eq = (cc.d['p'] == 'eq') == (t.d['succ'][0] == s)
+                a, b = cc.a
+                pa, pb = pidx(a), pidx(b)
+                if pa is not None and pb is not None:
+                    if is_eq:
+                        al.add(frozenset((pa, pb)))
+                    return ok, al
+                for x_, y_ in ((a, b), (b, a)):
+                    x = f.v(x_)
+                    if x is None or x.op != 'load':
+                        continue
+                    p = f.path(x.a[0])
+                    r_ = f.root(p)
+                    # R->data compared with NULL / with the broken sentinel
+                    if p[0][0] == 'arg' and p[0][1] in regs and len(p[1]) == 1 and str(p[1][0]).endswith('.data'):
+                        if y_[0] == 'n' and is_eq:
+                            ok.add(p[0][1])
+                        if is_broken(y_) and not is_eq:
+                            ok.add(p[0][1])
+                    # R->data->numRects compared with 0
+                    if p[0][0] == 'load' and y_[0] == 'c' and int(y_[1]) == 0 and not is_eq and p[1] and str(p[1][-1]).endswith('.numRects'):
+                        inner = p[0][1]
+                        if inner[0][0] == 'arg' and inner[0][1] in regs:
+                            ok.add(inner[0][1])
+                return ok, al
+            def block_out(b, st):
+                ok = set(st[0]); al = set(st[1])
+                for x in f.blocks[b].insts:
+                    if x.op == 'call' and x.callee:
+                        if x.callee == 'pixman_break':
+                            ok |= set(regs)
+                        for a in x.a:
+                            k = pidx(a)
+                            if k is not None and not x.callee.startswith('llvm.'):
+                                ok.add(k)
+                    elif x.op == 'store' and is_broken(x.a[0]):
+                        ok |= set(regs)            # the result is made the broken region: the failure is reported
+                return ok, al
+            # path-sensitive: explore (block, facts) states; the functions are loop-free apart from MIN/MAX diamonds
+            retb = {r_.bb.id: r_ for r_ in f.rets()}
+            seen = set(); work = [(0, frozenset(), frozenset(), (0,))]; bad = None; nstates = 0
+            while work and bad is None and nstates < 50000:
+                b, ok0, al0, pth_ = work.pop()
+                if (b, ok0, al0) in seen:
+                    continue
+                seen.add((b, ok0, al0)); nstates += 1
+                ok, al = block_out(b, (ok0, al0))
+                if b in retb:
+                    for k in inputs:
+                        good = k in ok or any(k in pr and ((set(pr) - {k}) & (ok | {regs[0]})) for pr in al)
+                        if not good:
+                            bad = (k, retb[b])
+                            if os.environ.get('PXV_DEBUG_R11'):
+                                print('DEBUG-R11', fn, k, pth_, sorted(ok), [sorted(p_) for p_ in al])
+                    continue
+                t = f.blocks[b].term
+                for s_ in f.blocks[b].succ:
+                    eo, ea = edge_facts(t, s_)
+                    work.append((s_, frozenset(ok | eo), frozenset(al | ea), pth_ + (s_,)))
+            if nstates >= 50000:
+                ck.incomplete(R, '%s: too many path states' % fn); continue
+            if bad:
+                k, r_ = bad
+                ck.violation(R, fn, 'input %s' % (f.params[k][0] or k), '%s can return without having examined its input %s on some path: that region is neither handed to a callee, nor tested for data == NULL / the broken sentinel / numRects, nor known to be the result itself; if it is the broken region left by an earlier allocation failure the operation answers from the other operand and reports success' % (fn, f.params[k][0] or 'parameter %d' % k), r_.loc())
+            else:
+                ck.ok(R, '%s: inputs %s examined on every path to a return' % (fn, [f.params[k][0] for k in inputs]))
